@@ -147,4 +147,20 @@ KnownFinding(stmts, clause) ==
   ELSE IF clause \in {"C02_bag", "C01_value"} /\ BundleCmpSignal(stmts) THEN "KF-C02-scalar-operand-visible"
   ELSE IF clause = "C02_bag" /\ NestedLiteral(stmts) THEN "KF-C02-nested-literal"
   ELSE KnownFinding1(stmts, clause)
+
+(* ---- findings that depend on how the program was compiled (record fields), not only on its text ---- *)
+(* KF-C18-big-supply: the power planner lays big poles out with a supply radius of 5 tiles; the prototype's                  *)
+(* supply_area_distance is 2: most consumers are outside every supply area with --power-poles big.                           *)
+(* KF-C08-small-pole-span: grid poles double as circuit relays with a 9-tile span whatever their type; a small pole reaches  *)
+(* 7.5 tiles: circuit wires to small poles between 7.5 and 9 tiles long.                                                     *)
+(* KF-C18-split-grid: pole clusters are placed around distant groups of entities without a connecting line of poles:         *)
+(* user entities >= 30 tiles apart give two separate electric networks.                                                      *)
+PlacesFarApart(stmts) == \E i, j \in DOMAIN stmts : stmts[i].k = "place" /\ stmts[j].k = "place" /\ stmts[i].x.k = "num" /\ stmts[j].x.k = "num"
+                            /\ (stmts[i].x.v - stmts[j].x.v >= 30 \/ stmts[i].y.v - stmts[j].y.v >= 30)
+KnownFindingR(rec, clause) ==
+  LET poles == IF "poles" \in DOMAIN rec THEN rec.poles ELSE "" IN
+  IF clause = "C18_powered" /\ poles = "big" THEN "KF-C18-big-supply"
+  ELSE IF clause = "C08_wire_reach" /\ poles = "small" THEN "KF-C08-small-pole-span"
+  ELSE IF clause = "C18_one_grid" /\ poles # "" /\ PlacesFarApart(rec.stmts) THEN "KF-C18-split-grid"
+  ELSE KnownFinding(rec.stmts, clause)
 =============================================================================
